@@ -28,7 +28,9 @@ EXTRA = {"C01-3": ["C12"], "C10-3": ["C12"], "C07-1": ["C04"], "C17-1": ["C02"],
          "C01-23": ["C12"], "C17-24": ["C04"], "C20-23": ["C13"], "C05-22": ["C02"], "C13-24": ["C02"], "C11-24": ["C02"], "C18-22": ["C02"],
          "C01-25": ["C10"], "C09-25": ["C13"], "C09-26": ["C14"], "C11-25": ["C01"], "C11-26": ["C04"], "C11-27": ["C06"], "C13-25": ["C12"],
          "C20-26": ["C12"], "C13-26": ["C07"], "C13-27": ["C15"], "C18-26": ["C02"], "C18-27": ["C12", "C04"], "C18-25": ["C16", "C01"],
-         "C04-25": ["C02"], "C19-26": ["C07"], "C01-27": ["C12"], "C12-25": ["C06"]}
+         "C04-25": ["C02"], "C19-26": ["C07"], "C01-27": ["C12"], "C12-25": ["C06"],
+         "C01-29": ["C03"], "C02-30": ["C03"], "C13-29": ["C03"], "C14-30": ["C03"], "C17-29": ["C02"], "C09-29": ["C14"], "C15-30": ["C16"],
+         "C17-30": ["C04"], "C17-28": ["C02"], "C05-29": ["C01"], "C03-29": ["C01"]}
 
 
 def run(name):
